@@ -653,7 +653,12 @@ def run_shard(shard, only=None):
                 res['violations'].append({'sig': 'C10|valid-request-failed|%s|%s' % (rn.family, shard['atom']),
                                           'what': '[%s %s] deviation 0 must succeed: %r' % (rn.label, transport, {k: str(v)[:100] for k, v in r0.items()}),
                                           'case': {'shard': shard, 'only': [transport, 'valid', '']}, 'count': 1})
-        for kind, label, data in muts():
+        def tails():
+            if isinstance(valid, bytes):
+                # more bytes than one document: a second document, a newline, a NUL, a stray opening token
+                for label, extra in (('newline', b'\n'), ('nul', b'\x00'), ('twice', valid), ('open', valid[:1]), ('space', b' ')):
+                    yield 'trailing-bytes', label, valid + extra
+        for kind, label, data in itertools.chain(muts(), tails()):
             key = [transport, kind, label]
             if only is not None and only != key:
                 continue
@@ -663,6 +668,15 @@ def run_shard(shard, only=None):
             casedoc = {'shard': shard, 'only': key}
             oc = verdict(r, rn, data if isinstance(data, bytes) else data.encode('utf8', 'replace'), res, casedoc, kind)
             res['evaluations'] += 1
+            if oc != 'escape':
+                # ... and the application is as good as new afterwards: the valid request is answered as before
+                r1 = rn.run(valid)
+                if r1['escaped'] is not None or r1['code'] is not None or r1['entered'] != 1 or r1['out'] != r0['out']:
+                    res['violations'].append({'sig': 'C10|valid-request-fails-afterwards|%s|%s' % (rn.family, kind),
+                                              'what': '[%s %s] after the malformed request %r the VALID request is answered %r (before: %r)' % (
+                                                  rn.label, transport, (data if isinstance(data, bytes) else data.encode('utf8', 'replace'))[:200],
+                                                  {k: str(v)[:100] for k, v in r1.items()}, {k: str(v)[:60] for k, v in r0.items()}),
+                                              'case': casedoc, 'count': 1})
             res['cov']['truncations' if kind == 'truncate' else 'structural'] += 1
             res['outcomes'][oc] = res['outcomes'].get(oc, 0) + 1
             if (transport, data) not in seen:
